@@ -68,7 +68,11 @@ UNPROVED = [
     "exact model of _project_images (per-channel projectOn on all delayed reference channels) and the image "
     "criteria on it: executable and tied by correspondence (ls_images), no separate theorems (projectOn's apply "
     "channel by channel)",
-    "solveAny? always succeeds on normal equations (they are consistent); only its soundness is proved",
+    "the lstsq fall-back model is total and a least-squares minimiser for ALL inputs (solveAny_isSome_iff, "
+    "normal_equations_consistent, solveAny_normal_equations, projectAny_total, projectAny_least_squares); not "
+    "proved: that it equals np.linalg.lstsq's minimum-NORM coefficient vector (the projected signal is the same for "
+    "every solution; compared by correspondence project_lstsq_exact); the criteria theorems (sourceCritExact_*) are "
+    "stated for the non-singular path only, where a singular Gram matrix is outside the model's domain",
     "argmax of mean SIR in dB = argmax of the product of SIR ratios (log monotone; Float-free model choice)",
 ]
 
